@@ -4,6 +4,8 @@ Composition of plain edits: lookups see through identity updates; set;set, set;r
 distinct bindings. Used by C19 (and by C04 for histories).
 -/
 namespace Nima
+-- name tokens are compared by spelling in this file (see `NameCmp` in Model/Edit.lean)
+attribute [local instance] NameCmp.spelled
 open Node
 
 /-! ## lookups see through a write to a Binding object -/
@@ -35,14 +37,14 @@ theorem isIdent_updBind (id : Nat) (v n : Node) : (updBind id v n).isIdent = n.i
 theorem findBinding_append_new (vs : List Node) (k : Text) (j : Nat) (ne : Bool) (v : Node)
     (b a : Payload) (h : findBinding vs k = none) :
     findBinding (vs ++ [.bind j k ne v b a]) k = some (.bind j k ne v b a) := by
-  unfold findBinding at *
+  simp only [findBinding_spelled] at *
   rw [List.find?_append, h]
   simp [isBind, bindName?]
 
 theorem findAttrpathRoot_append_plain (vs : List Node) (k : Text) (j : Nat) (nm : Text) (v : Node)
     (b a : Payload) (h : findAttrpathRoot vs k = none) :
     findAttrpathRoot (vs ++ [.bind j nm false v b a]) k = none := by
-  unfold findAttrpathRoot at *
+  simp only [findAttrpathRoot_spelled] at *
   rw [List.find?_append, h]
   simp [isBind, bindNested]
 
